@@ -15,8 +15,9 @@ for f in $V/seeded/redteam/*/*.diff; do
   esac
   W=/tmp/wt-red-$$; git -C /repo worktree add -q --detach $W HEAD; (cd $W && git apply $f) || { echo "$d/$n: patch does not apply"; git -C /repo worktree remove --force $W; fail=1; continue; }
   hit=""
+  BB=$B; grep -q "^$d/$n " $V/seeded/redteam/NARROW 2>/dev/null && BB=$((B*8))   # narrow-margin probes need about 3e5 runs
   for c in $fam; do
-    out=$(VERIF_REPO=$W VERIF_BUDGET_S=$B $V/bin/vcheck $c 2>&1); rc=$?
+    out=$(VERIF_REPO=$W VERIF_BUDGET_S=$BB $V/bin/vcheck $c 2>&1); rc=$?
     if [ $rc = 1 ]; then hit="$c ($(echo "$out" | grep -E '^violation class' | head -1 | cut -c18-70))"; break; fi
   done
   git -C /repo worktree remove --force $W
